@@ -19,6 +19,7 @@ vars == <<l, failed, drift>>
 
 TAB == 9
 SP == 32
+StatWidth == 48       \* --diff-stat-align-width (default)
 RECURSIVE Expand(_, _, _)
 Expand(p, w, i) == IF i > Len(p) THEN <<>>
                    ELSE (IF p[i] = TAB /\ w > 0 THEN [j \in 1..w |-> SP] ELSE <<p[i]>>) \o Expand(p, w, i + 1)
@@ -48,7 +49,11 @@ WantFiles(d) == IF d[3] = "comparing" THEN <<d[1], d[2]>> ELSE IF d[1] = d[2] TH
 \* does observed row g satisfy what is wanted (w: a Row of Obs_Stream) for history h?
 RowMatches(h, cfg, w, g) ==
   LET line == h[w.k] IN
-  CASE w.t \in {"raw", "rawopt"} -> \/ g.bid = line.bid   \* whatever it looks like: the same bytes
+  CASE w.t \in {"raw", "rawopt"} /\ line.c = "stat" /\ cfg.rel ->
+            \* diffstat line under --relative-paths: the path as seen from the user's directory (rp), filled to the
+            \* alignment width, then the rest of the line from the bar on (sfx)
+            g.vis = <<SP>> \o line.rp \o [i \in 1..(IF Len(line.rp) < StatWidth THEN StatWidth - Len(line.rp) ELSE 0) |-> SP] \o line.sfx
+    [] w.t \in {"raw", "rawopt"} -> \/ g.bid = line.bid   \* whatever it looks like: the same bytes
                                     \* an empty line: an empty row (in a combined hunk it is an unchanged line)
                                     \/ (line.c = "blank" /\ g.t \in {"blank", "zero"} /\ g.vis = <<>>)
     [] w.t = "commit"  -> g.t = "commit" /\ g.vis = line.pay
